@@ -4,7 +4,8 @@ import json, os, sys
 
 VERIF = os.path.abspath(os.path.join(os.path.dirname(__file__), '..'))
 TB = ("Trusted: Lean 4.33 kernel; axioms propext/Classical.choice/Quot.sound only (audited on every run); dumpconsts regenerating "
-      "Inkayaku/Gen from the current build; the differential harness, generators and Python oracles; ")
+      "Inkayaku/Gen from the current build; rs2lean translating selected Rust functions to Lean on every run (Gen/Rs, equivalence with the model proved in Props/Translated); "
+      "the differential harness, generators and Python oracles; ")
 
 P = {
  'C01': ('Lean theorems (Props/C01, Props/Closure): genLegal_eq_rules — for every well-formed board the UCI texts of the legal-move generator are exactly the legal moves of the independent mailbox Spec of the rules of chess (no missing, no extra move; castling, e.p., promotions, pins, checks), no_moves_iff_rules; capture/promotion generator = filter of the pseudo-legal generator; uses C04 (table lookups = ray walks) and C05 (check detection = attack relation). Tied to the code on every run by three-way differential testing (implementation = bitboard model = Spec) on generated legal positions incl. perft to depth 3 and legal-after lines.',
@@ -75,6 +76,16 @@ P = {
 }
 
 
+TRANSLATED = {
+ 'C07': 'Search::calculate_max_thinking_time with its two getters (rs_calculate_max_thinking_time_eq)',
+ 'C08': 'KillerTable::get/put, the MvvLva sort key, Heuristic::is_checkmate and the terminal branches of evaluate (rs_killer_get_eq, rs_killer_put_eq, rs_sort_key_eq, rs_is_checkmate_eq, rs_evaluate_eq)',
+ 'C10': 'ZobristHistory::count_repetitions and Bitboard::ply_clock (rs_count_repetitions_eq, rs_ply_clock_eq)',
+ 'C11': 'Heuristic::score_from_value, is_checkmate and the terminal branches of evaluate (rs_score_from_value_eq, rs_is_checkmate_eq, rs_evaluate_eq)',
+ 'C12': 'Fen::validate_rank (rs_validate_rank_eq)',
+ 'C15': 'Square::from_chars / from_indices (rs_from_chars_eq)',
+}
+
+
 def main():
     claimed = sys.argv[1].split(',') if len(sys.argv) > 1 else sorted(P)
     reasons = {}
@@ -85,6 +96,9 @@ def main():
         if pid not in claimed:
             continue
         text, note, tech, ref = P[pid]
+        if pid in TRANSLATED:
+            text += ' Translated on every run from the current Rust source (rs2lean) and proved equal to the model function the theorems use: ' + TRANSLATED[pid] + '.'
+            tech += ' + Rust-to-Lean translation of the named functions with proved equivalence to the model'
         checks.append({
             "property_id": pid,
             "quick_cmd": "bin/check %s --tier quick" % pid,
